@@ -292,7 +292,8 @@ def runLine (st : DState) (j : Json) : DState × Option Json :=
       -- earlier saves of the same response are superseded: the browser keeps the last line per name and the stale chunks are deleted
       let st1 := setJar { st with cur := some v } st.b jar'
       let lines := Json.mkObj ((linesOf st.secure st.now v).map (fun (n, l) => (n, Json.num l)))
-      (st1, some (Json.mkObj [("lines", lines), ("jar", viewJson st e jar')]))
+      (st1, some (Json.mkObj [("lines", lines), ("jar", viewJson st e jar'),
+        ("attrs", Json.str (Codec.attrsText st.secure Current.maxAgeSec)), ("dattrs", Json.str (Codec.attrsText st.secure 0))]))
   | "sview" =>   -- reading the current jar (after tampering) without saving
     let now := jI j "now"
     let e : Env := { now := now, tok := tokInfo st.toks, verifyTok := fun _ => false, exchange := fun _ _ _ => .failed, refresh := fun _ => .error false,
